@@ -5,6 +5,7 @@ from ..core import Acc, Stage
 from ..oracle import symmetry
 from ..scope import molecules as M, graphs, inputs
 from .. import chooser
+from ..oracle import knownclass
 
 META = {
     'technique': 'bounded exhaustive enumeration of descriptions of one molecule (all numberings, insertion orders, every traversal of the random-order writer via a choice-point explorer, RDKit spellings over renumberings x roots) on the real canonicaliser',
@@ -124,6 +125,9 @@ def check_descriptions(acc, m0, tag, numberings, chooser_bound, rdkit_text=None,
             bad('own random-order spelling cannot be re-read: %s' % type(e).__name__, text=text, script=list(script))
             break
         if str(c) != ref_s or hash(c) != ref_h or not (c == ref):
+            if knownclass.ct_closure(text) or knownclass.ct_closure(ref_s):
+                bad('re-reading an own random-order spelling gives a different canonical string' + knownclass.TAG, text=text, script=list(script), got=str(c), expected=ref_s)
+                continue
             bad('re-reading an own random-order spelling gives a different canonical string', text=text, script=list(script), got=str(c), expected=ref_s)
             break
     acc.info['own spellings'] += len(seen)
@@ -154,6 +158,9 @@ def check_descriptions(acc, m0, tag, numberings, chooser_bound, rdkit_text=None,
                     acc.ood['rdkit spelling not readable/kekulisable by chython'] += 1
                     continue
                 if str(c) != ref_s or hash(c) != ref_h:
+                    if knownclass.ct_closure(ref_s) or knownclass.ct_closure(str(c)):
+                        bad('re-reading a spelling of another toolkit gives a different canonical string' + knownclass.TAG, text=text, got=str(c), expected=ref_s)
+                        continue
                     bad('re-reading a spelling of another toolkit gives a different canonical string', text=text, got=str(c), expected=ref_s)
                     break
             acc.info['rdkit spellings'] += len(texts)
@@ -161,6 +168,7 @@ def check_descriptions(acc, m0, tag, numberings, chooser_bound, rdkit_text=None,
         if ood:
             acc.ood['out of domain ' + ood] += 1
         else:
+            fails.sort(key=lambda f: knownclass.TAG in f[0])
             what, d = fails[0]
             acc.fail('%s :: %s' % (what, tag), mol=tag, **d)
             acc.outcomes['FAIL ' + what] += 1
